@@ -69,6 +69,17 @@ theorem tryInsert_spec {p : Params} {c : Cache} (k : Key) (v : Val) (o : Oracle)
   simp only [tryInsert, h1, h2, if_false, hfree, Option.isSome_none, Bool.false_eq_true]
   exact ⟨hu.2.2.1, trivial, hu.2.2.2.1, hu.2.2.2.2⟩
 
+/-- An `insert` of an absent key that fits the free space appends without evicting. -/
+theorem C10_like_fit {p : Params} {c : Cache} (k : Key) (v : Val) (o : Oracle) (h : InvA p c)
+    (hfit : entrySize p k v ≤ c.max - c.cur) (hfree : lookup c.entries k.id = none) :
+    (insert p c k v o).cache.entries = c.entries ++ [⟨k, v, entrySize p k v⟩] := by
+  have hb := h.bound
+  have hrm : removeId c.entries k.id = c.entries := removeId_of_not_mem (lookup_none_iff.mp hfree)
+  have hn : need c.entries (c.max - entrySize p k v) = 0 := need_eq_zero (by rw [← h.cur]; omega)
+  have := (insert_spec k v o h (by omega)).1
+  rw [hrm, hn] at this
+  exact this
+
 /-- `set_max_size`: exactly the minimal LRU prefix goes. -/
 theorem setMaxSize_spec {p : Params} {c : Cache} (m : Nat) (o : Oracle) (h : InvA p c) :
     (setMaxSize c m o).cache.entries = c.entries.drop (need c.entries m) ∧
